@@ -75,6 +75,12 @@ def zip_rule(ctx, fv):
     it = fv.term(loop["iter"])
     sp_ = ("param", param_index(fv, "seq"))
     freqs = ("call", S2K, ("self",), sp_)
+    if getattr(ctx.prog, "absorbed_into", {}).get(S2K) == fv.path:
+        # seq_to_kmer was merged into this function: the frequencies are the zero-initialised vector it accumulates
+        bk = [(lid, b) for lid, b in fv.binds.items() if b["mut"] and b["val"][0] == "node"
+              and zero_vec_len(fv.term(b["val"][1]), True) is not None]
+        if len(bk) == 1:
+            freqs = ("local", bk[0][1]["name"], bk[0][0])
     item0 = ("item", it)
     if it[0] == "call" and it[1].endswith("Iterator::zip"):
         ok = it[2][0] == "call" and it[2][1].endswith("::iter") \
